@@ -164,8 +164,14 @@ Section Hashed.
     end.
 
   (* a ledger as the system sees it: tables + sequences, the hash column, _system.ledgers.state *)
-  Record istate := { i_s : state; i_tab : htable; i_l : lstate }.
-  Definition i_init : istate := {| i_s := init_state; i_tab := []; i_l := Initializing |}.
+  (* i_l = the ROW _system.ledgers.state; i_c = controllerFacade.ledger.State, the copy of that row the facade the requests
+     go through read last (when GetLedgerController built it, at its last Import, or set by its own handleState commit):
+     handleState and BeginTX branch on the CACHE, Import on the ROW re-read under the ledger lock *)
+  Record istate := { i_s : state; i_tab : htable; i_l : lstate; i_c : lstate }.
+  Definition i_init : istate := {| i_s := init_state; i_tab := []; i_l := Initializing; i_c := Initializing |}.
+  Definition with_cache (b : istate) (c : lstate) : istate := {| i_s := i_s b; i_tab := i_tab b; i_l := i_l b; i_c := c |}.
+  (* the cache never runs ahead of the row (it is a copy of the row, or set after the commit that flipped the row) *)
+  Definition coherent (b : istate) : Prop := i_c b = InUse -> i_l b = InUse.
 
   (* the exported stream: logs by id, each with its stored hash (empty when hashing is off) *)
   Definition hash_of (t : htable) (id : Z) : bytes :=
@@ -200,13 +206,14 @@ Section Hashed.
   Definition last_log_id (s : state) : option Z :=
     fold_left (fun m l => match m with Some x => Some (Z.max x (l_id l)) | None => Some (l_id l) end) (s_logs s) None.
 
-  (* controllerFacade.Import *)
+  (* controllerFacade.Import: under the ledger lock the row is scanned into c.ledger (the cache is refreshed whatever it held)
+     and THAT value decides *)
   Definition imp_import (f : features) (now : Z) (b : istate) (rs : list (log * bytes)) : istate * option ierr :=
     match i_l b with
-    | InUse => (b, Some IENotInitializing)
+    | InUse => (with_cache b InUse, Some IENotInitializing)
     | Initializing =>
       let '(st', e) := imp_loop f now (last_log_id (i_s b)) (i_s b, i_tab b) rs in
-      ({| i_s := fst st'; i_tab := snd st'; i_l := Initializing |}, e)
+      ({| i_s := fst st'; i_tab := snd st'; i_l := Initializing; i_c := Initializing |}, e)
     end.
 
   (* ---------- writes ---------- *)
@@ -227,14 +234,18 @@ Section Hashed.
   Definition committed (o : op) (r : result) : bool :=
     match r with ROk _ _ _ => negb (o_dry o) | RErr _ => false end.
 
-  (* a write through the facade: handleState *)
+  (* a write through the facade: handleState.  Cache in-use: the write runs directly.  Cache initializing: a transaction
+     takes the ledger lock and runs UPDATE .. SET state = in-use WHERE state = initializing on the ROW; only when that
+     changed a row are the sequences resynchronised; the commit of a successful non-dry write makes the flip durable and
+     sets the cache *)
   Definition w_single (f : features) (now : Z) (b : istate) (o : op) : istate * option result :=
-    let s0 := match i_l b with Initializing => resync (i_s b) | InUse => i_s b end in
+    let s0 := match i_c b, i_l b with Initializing, Initializing => resync (i_s b) | _, _ => i_s b end in
     match step f now s0 o with
-    | SPanic => ({| i_s := s0; i_tab := i_tab b; i_l := i_l b |}, None)
+    | SPanic => ({| i_s := s0; i_tab := i_tab b; i_l := i_l b; i_c := i_c b |}, None)
     | SR s' r =>
+      let done := match i_c b with InUse => false | Initializing => committed o r end in
       ({| i_s := s'; i_tab := tab_after f (i_tab b) s0 s';
-          i_l := match i_l b with InUse => InUse | Initializing => if committed o r then InUse else Initializing end |}, Some r)
+          i_l := if done then InUse else i_l b; i_c := if done then InUse else i_c b |}, Some r)
     end.
 
   (* non-atomic bulk: every element through the facade, at one instant; after a failure the rest is cancelled *)
@@ -287,23 +298,26 @@ Section Hashed.
   Definition w_atomic_unrepaired (f : features) (now : Z) (b : istate) (os : list op) : istate * aout :=
     let '(s', rs, aborted, err) := atomic_run f now (i_s b) false false os in
     if err || aborted then
-      ({| i_s := only_sequences (i_s b) s'; i_tab := i_tab b; i_l := i_l b |}, if err then AResults rs else ACommitFailed)
-    else ({| i_s := s'; i_tab := tab_after f (i_tab b) (i_s b) s'; i_l := i_l b |}, AResults rs).
+      ({| i_s := only_sequences (i_s b) s'; i_tab := i_tab b; i_l := i_l b; i_c := i_c b |}, if err then AResults rs else ACommitFailed)
+    else ({| i_s := s'; i_tab := tab_after f (i_tab b) (i_s b) s'; i_l := i_l b; i_c := i_c b |}, AResults rs).
 
   (* controllerFacade.BeginTX (since the repair): on a ledger that is still initializing the transaction of the bulk first
      takes the ledger lock, flips the state and resynchronises the sequences (markInUse), exactly as handleState does for a
-     single write; the flip commits or rolls back with the bulk, setval is not transactional *)
+     single write (it branches on the cache too); the flip commits or rolls back with the bulk, setval is not transactional *)
   Definition w_atomic (f : features) (now : Z) (b : istate) (os : list op) : istate * aout :=
-    let s0 := match i_l b with Initializing => resync (i_s b) | InUse => i_s b end in
+    let s0 := match i_c b, i_l b with Initializing, Initializing => resync (i_s b) | _, _ => i_s b end in
     let '(s', rs, aborted, err) := atomic_run f now s0 false false os in
     if err || aborted then
-      ({| i_s := only_sequences (i_s b) s'; i_tab := i_tab b; i_l := i_l b |}, if err then AResults rs else ACommitFailed)
-    else ({| i_s := s'; i_tab := tab_after f (i_tab b) s0 s'; i_l := InUse |}, AResults rs).
+      ({| i_s := only_sequences (i_s b) s'; i_tab := i_tab b; i_l := i_l b; i_c := i_c b |}, if err then AResults rs else ACommitFailed)
+    else ({| i_s := s'; i_tab := tab_after f (i_tab b) s0 s'; i_l := match i_c b with Initializing => InUse | InUse => i_l b end;
+             i_c := i_c b |},                       (* BeginTX does not touch the cache *)
+          AResults rs).
 
   (* the source ledger: a history run from the empty ledger, with the hash column the trigger maintained *)
   Definition source (f : features) (h : list (Z * op)) : istate :=
     let s := run f h in
-    {| i_s := s; i_tab := if f_hash f then log_table H pre s else []; i_l := match s_logs s with [] => Initializing | _ => InUse end |}.
+    let l := match s_logs s with [] => Initializing | _ => InUse end in
+    {| i_s := s; i_tab := if f_hash f then log_table H pre s else []; i_l := l; i_c := l |}.
 End Hashed.
 
 (* ---------- a concrete collision-free instantiation for the extracted model: H = identity over a length-prefixed
@@ -347,6 +361,8 @@ Definition shift_log (dl dt : Z) (l : log) : log :=
   {| l_id := l_id l + dl; l_payload := shift_payload dt (l_payload l); l_date := l_date l; l_ik := l_ik l; l_input := l_input l |}.
 
 Inductive action :=
+| AResolve                                                   (* GetLedgerController: a SECOND facade is built, its cache = the row now *)
+| AImportStale (drop : nat) (take : option nat) (now : Z)   (* Import through that second facade *)
 | AImportShift (with_orig : bool) (now dl dt : Z)
 | AImport (drop : nat) (take : option nat) (now : Z)
 | ASingle (ops : list (Z * op))
@@ -355,6 +371,7 @@ Inductive action :=
 | AAtomicUnrepaired (now : Z) (ops : list op).     (* the code before fixes/01-facade-begintx (witnesses only) *)
 
 Inductive aresult :=
+| RResolve
 | RImport (e : option ierr) (b : istate)      (* the copy right after the import (for the comparison with the source) *)
 | RSingle (rs : list (option result))
 | RBulk (rs : list bres)
@@ -365,6 +382,7 @@ Definition slice {A} (drop : nat) (take : option nat) (l : list A) : list A :=
 
 Definition run_action (f : features) (stream : list (log * bytes)) (b : istate) (a : action) : istate * aresult :=
   match a with
+  | AResolve | AImportStale _ _ _ => (b, RResolve)              (* handled by run_action2 *)
   | AImportShift with_orig now dl dt =>
     let shifted := map (fun r => (shift_log dl dt (fst r), snd r)) stream in
     let '(b', e) := imp_import toy_H toy_pre f now b ((if with_orig then stream else []) ++ shifted) in (b', RImport e b')
@@ -379,9 +397,20 @@ Definition run_action (f : features) (stream : list (log * bytes)) (b : istate) 
   | AAtomicUnrepaired now ops => let '(b', o) := w_atomic_unrepaired toy_H toy_pre f now b ops in (b', RAtomic o)
   end.
 
+(* the second facade only has a cache of its own: its requests run on the ledger with the caches swapped *)
+Definition run_action2 (f : features) (stream : list (log * bytes)) (bs : istate * lstate) (a : action) : (istate * lstate) * aresult :=
+  let '(b, stale) := bs in
+  match a with
+  | AResolve => ((b, i_l b), RResolve)
+  | AImportStale drop take now =>
+    let '(b', e) := imp_import toy_H toy_pre f now (with_cache b stale) (slice drop take stream) in
+    ((with_cache b' (i_c b), i_c b'), RImport e b')
+  | _ => let '(b', r) := run_action f stream b a in ((b', stale), r)
+  end.
+
 Definition run_script (f : features) (h : list (Z * op)) (sc : list action) : istate * istate * list aresult :=
   let a := source toy_H toy_pre f h in
   let stream := imp_export_rows a in
-  let '(b, rs) := fold_left (fun acc act => let '(b0, rs) := acc in let '(b1, r) := run_action f stream b0 act in (b1, rs ++ [r]))
-                            sc (i_init, []) in
-  (a, b, rs).
+  let '(bs, rs) := fold_left (fun acc act => let '(b0, rs) := acc in let '(b1, r) := run_action2 f stream b0 act in (b1, rs ++ [r]))
+                             sc ((i_init, Initializing), []) in
+  (a, fst bs, rs).
